@@ -1,8 +1,298 @@
 /-
-C09 — property theorems (under construction; see DESIGN.md section 8).
+C09 — The will is published exactly when the connection ends without DISCONNECT.
+
+Property theorems only (helper lemmas: `Proofs/BrokerLife*.lean`).  Model:
+`Model/Broker.lean` — `first` (`Session.Init/Update` build the will from the
+CONNECT), `packet … .disconnect` (clears the will flag, then `stop`), `stop`
+(every other end of a connection: peer close, keep-alive expiry, protocol
+error).  The theorems hold for every broker state in which the connection is
+live and its session reference resolves; `Inv` (kept by every event, so true of
+every state reachable from the initial one) guarantees the latter.
 -/
-import Mqtt.Model.Broker
-import Mqtt.Spec.Broker
+import Mqtt.Proofs.BrokerLifeWillKept
 
 namespace Mqtt.Properties.C09
+open Mqtt.Iface.Broker Mqtt.Model.Broker Mqtt.Proofs.BrokerLife
+
+/-! ### 0. reachable states -/
+
+/-- The invariant holds initially and is kept by every event. -/
+theorem C09_inv (b : B) (e : Ev) : Inv ({} : B) ∧ (Inv b → Inv (step b e).1) :=
+  ⟨inv_init, fun h => inv_step h e⟩
+
+/-- In every state reachable from the initial one, a live connection has a
+session object. -/
+theorem C09_live_has_session (evs : List Ev) (c : Nat) (h : (run {} evs).1.alive c = true) :
+    ∃ cn s, (run {} evs).1.getConn c = some cn ∧ cn.alive = true ∧ (run {} evs).1.getSess cn.sess = some s :=
+  (inv_reachable evs).live h
+
+/-! ### 1. DISCONNECT: never a will -/
+
+/-- A DISCONNECT packet on a live connection produces the close of that
+connection and nothing else — no PUBLISH to anybody, no callback — whatever will
+the session holds; the connection is not live afterwards, so its later socket
+close (`stop`) and any further packet produce nothing either. -/
+theorem C09_disconnect_no_will (b : B) (c : Nat) (cn : Conn) (s : Sess)
+    (hc : b.getConn c = some cn) (ha : cn.alive = true) (hs : b.getSess cn.sess = some s) :
+    (packet b c .disconnect).2 = [.closed c] ∧
+    (packet b c .disconnect).1.alive c = false ∧
+    stop (packet b c .disconnect).1 c = ((packet b c .disconnect).1, []) ∧
+    ∀ p, packet (packet b c .disconnect).1 c p = ((packet b c .disconnect).1, []) := by
+  have hd : (packet b c .disconnect).1.alive c = false := by
+    rw [packet_disconnect_eq b c cn s hc ha hs]; exact stop_not_alive _ c
+  exact ⟨packet_disconnect b c cn s hc ha hs, hd, stop_dead _ c hd, fun p => packet_dead _ c p hd⟩
+
+/-- the same for every reachable state -/
+theorem C09_disconnect_no_will_reachable (evs : List Ev) (c : Nat) (h : (run {} evs).1.alive c = true) :
+    (packet (run {} evs).1 c .disconnect).2 = [.closed c] := by
+  obtain ⟨cn, s, hc, ha, hs⟩ := (inv_reachable evs).live h
+  exact packet_disconnect _ c cn s hc ha hs
+
+/-- non-vacuity: connection 1 holds a will on "w" to which connection 2 and a
+callback listen; DISCONNECT, then the socket close: only the close is emitted. -/
+example :
+    Ex.base2.alive 1 = true ∧
+    (Ex.base2.getSess 1).map (fun s => (s.willFlag, s.will.map (·.p.topic))) = some (true, some Ex.tW) ∧
+    (run Ex.base2 [.packet 1 .disconnect, .close 1]).2 = [[.closed 1], []] := by decide
+
+/-! ### 2. any other end: the will, exactly once -/
+
+/-- `stop` (network drop, keep-alive expiry, protocol error) on a live connection
+whose session has the will flag and will message `w`: the output is the close
+followed by exactly the outputs of the normal publish path (`onPublish`: retain
+step, subscriber lookup, fan-out) for `w`, in the state where `c` is already
+marked closed and its subscriptions are removed.  Afterwards the connection is
+not live: a second `stop` and any packet on `c` emit nothing and change nothing,
+so the will is published once. -/
+theorem C09_will_published_once (b : B) (c : Nat) (cn : Conn) (s : Sess) (w : Msg)
+    (hc : b.getConn c = some cn) (ha : cn.alive = true) (hs : b.getSess cn.sess = some s)
+    (hf : s.willFlag = true) (hw : s.will = some w) :
+    (stop b c).2 = .closed c :: (onPublish (stopBase b c s) w).2.2.1 ∧
+    (stop b c).1.alive c = false ∧
+    stop (stop b c).1 c = ((stop b c).1, []) ∧
+    ∀ p, packet (stop b c).1 c p = ((stop b c).1, []) :=
+  ⟨stop_out_will b c cn s w hc ha hs hf hw, stop_not_alive b c, stop_dead _ c (stop_not_alive b c),
+    fun p => packet_dead _ c p (stop_not_alive b c)⟩
+
+/-- Without a will flag (no will in the CONNECT, or cleared by DISCONNECT) the
+end of the connection publishes nothing. -/
+theorem C09_no_will_no_publish (b : B) (c : Nat) (cn : Conn) (s : Sess)
+    (hc : b.getConn c = some cn) (ha : cn.alive = true) (hs : b.getSess cn.sess = some s)
+    (hf : s.willFlag = false) :
+    (stop b c).2 = [.closed c] :=
+  stop_out_nowill b c cn s hc ha hs hf
+
+/-- `stopBase` is the state the will meets: other connections are as live as
+before, `c` is not, nothing else but the tries differs. -/
+theorem C09_stopBase (b : B) (c : Nat) (s : Sess) :
+    (stopBase b c s).alive c = false ∧ (∀ d, d ≠ c → (stopBase b c s).alive d = b.alive d) ∧
+    (stopBase b c s).sess = b.sess ∧ (stopBase b c s).store = b.store ∧ (stopBase b c s).ctr = b.ctr ∧
+    (stopBase b c s).topics = unsubAll b.topics c s.topics :=
+  ⟨markDead_alive_self b c, fun d hd => markDead_alive_ne b c d hd, rfl, rfl, rfl, rfl⟩
+
+/-- non-vacuity: the peer of connection 1 drops.  Its will (topic "w", payload
+[1], QoS 1) goes to connection 2 at QoS 1 and to the callback at QoS 0, once;
+a second close and a late packet are silent. -/
+example :
+    (run Ex.base2 [.close 1, .close 1, .packet 1 .pingreq]).2 =
+      [[.closed 1,
+        .send 2 (.publish { qos := 1, topic := Ex.tW, pktid := 2, payload := [1] }),
+        .call 1000 { qos := 0, topic := Ex.tW, pktid := 2, payload := [1] }], [], []] := by decide
+
+/-! ### 3. the will is the one of the current CONNECT -/
+
+/-- After an accepted CONNECT — on a new session object or on a resumed one —
+the connection is live, its session object resolves, and that object's will
+flag and will message are those built from THIS CONNECT (`initWill`), not from
+any earlier one. -/
+theorem C09_will_is_current_connect (b : B) (c : Nat) (req : Connect) (authOk : Bool)
+    (h : ∃ sp, Out.send c (.connack sp 0) ∈ (first b c (.connect req) authOk).2) :
+    ∃ cn s, (first b c (.connect req) authOk).1.getConn c = some cn ∧ cn.alive = true ∧
+      (first b c (.connect req) authOk).1.getSess cn.sess = some s ∧
+      s.willFlag = req.will.isSome ∧ s.will = initWill req := by
+  have ha := (accepts_iff_emits b c (.connect req) authOk).mpr h
+  rw [first_accepted b c req authOk ha]
+  exact ⟨_, _, accepted_getConn b c req, rfl, accepted_getSess b c req, (acceptedSess_will b c req).1,
+    (acceptedSess_will b c req).2⟩
+
+/-- The will message built from a CONNECT carries its will topic, payload, QoS
+and retain flag (for a will topic that is a valid topic name; otherwise
+`SetTopic` refuses and the message keeps an empty topic). -/
+theorem C09_initWill_fields (req : Connect) (w : Will) (h : req.will = some w) (hv : validTopic w.topic = true) :
+    initWill req = some ⟨{ qos := w.qos, retain := w.retain, topic := w.topic, payload := w.payload }, true⟩ ∧
+    (req.will = none → initWill req = none) :=
+  ⟨initWill_some req w h hv, fun hn => by rw [hn] at h; cases h⟩
+
+/-- Together: if the connection ends abnormally right after its accepted
+CONNECT with will `(T, p, q, r)`, exactly that message goes through the publish
+path — fresh and resumed sessions alike. -/
+theorem C09_current_will_published (b : B) (c : Nat) (req : Connect) (authOk : Bool) (w : Will)
+    (h : ∃ sp, Out.send c (.connack sp 0) ∈ (first b c (.connect req) authOk).2)
+    (hw : req.will = some w) (hv : validTopic w.topic = true) :
+    ∃ s, (stop (first b c (.connect req) authOk).1 c).2 =
+      .closed c :: (onPublish (stopBase (first b c (.connect req) authOk).1 c s)
+        ⟨{ qos := w.qos, retain := w.retain, topic := w.topic, payload := w.payload }, true⟩).2.2.1 := by
+  obtain ⟨cn, s, hc, ha, hs, hf, hwl⟩ := C09_will_is_current_connect b c req authOk h
+  refine ⟨s, ?_⟩
+  rw [initWill_some req w hw hv] at hwl
+  rw [hw] at hf
+  exact stop_out_will _ c cn s _ hc ha hs hf hwl
+
+/-- non-vacuity (resumed session): connection 1 drops, the client returns as
+connection 3 with CleanSession=0 and a different will (topic "x", retained,
+QoS 0), SessionPresent=1; when 3 drops, the new will is published (retained on
+"x"; nobody listens) — not the first one again. -/
+example :
+    let req := Ex.conn Ex.idA false (some ⟨[120], [5], 0, true⟩)
+    let b := (run Ex.base2 [.close 1]).1
+    (first b 3 (.connect req) true).2 = [.send 3 (.connack true 0)] ∧
+    ((first b 3 (.connect req) true).1.getSess 1).map (·.will) =
+      some (some ⟨{ qos := 0, retain := true, topic := [120], payload := [5] }, true⟩) ∧
+    (stop (first b 3 (.connect req) true).1 3).2 = [.closed 3] ∧
+    ((stop (first b 3 (.connect req) true).1 3).1.topics.retained [120]).map (·.map (·.payload)) = some [[5]] := by
+  decide
+
+/-! ### 4. nothing but `stop` publishes a will -/
+
+/-- `eraseWills b` is `b` with every stored will message removed: tries,
+connections, store, counters and all other session fields (the will flags
+included) are those of `b`. -/
+theorem C09_eraseWills_spec (b : B) (r : Nat) :
+    (eraseWills b).getSess r = (b.getSess r).map (fun s => { s with will := none }) ∧
+    (eraseWills b).topics = b.topics ∧ (eraseWills b).conns = b.conns ∧ (eraseWills b).store = b.store ∧
+    (eraseWills b).nextRef = b.nextRef ∧ (eraseWills b).ctr = b.ctr :=
+  ⟨ew_getSess b r, rfl, rfl, rfl, rfl, rfl⟩
+
+/-- Every event other than the end of a connection by `stop` — CONNECT, PUBLISH,
+PUBREL, SUBSCRIBE, UNSUBSCRIBE, DISCONNECT, any other packet, the in-process
+API — produces exactly the same outputs in `b` and in `b` without its will
+messages, and the resulting states again differ at most in will messages: no
+such event sends anything that stems from a stored will. -/
+theorem C09_only_stop_reads_will (b : B) (e : Ev) (h : ∀ c, e ≠ .close c) :
+    (step (eraseWills b) e).2 = (step b e).2 ∧
+    eraseWills (step (eraseWills b) e).1 = eraseWills (step b e).1 :=
+  step_ew b e h
+
+/-- the same for any sequence of such events -/
+theorem C09_only_stop_reads_will_run (b : B) (evs : List Ev) (h : ∀ e ∈ evs, ∀ c, e ≠ .close c) :
+    (run (eraseWills b) evs).2 = (run b evs).2 :=
+  (run_ew evs h b (eraseWills b) (eraseWills_idem b)).1
+
+/-- and `stop` itself reads it only under a set will flag -/
+theorem C09_stop_reads_will_only_with_flag (b : B) (c : Nat) (cn : Conn) (s : Sess)
+    (hc : b.getConn c = some cn) (ha : cn.alive = true) (hs : b.getSess cn.sess = some s)
+    (hf : s.willFlag = false) :
+    stop (eraseWills b) c = (eraseWills (stop b c).1, (stop b c).2) :=
+  stop_ew_noflag b c cn s hc ha hs hf
+
+/-- non-vacuity: with listeners on the will topic "w", a run of publishes,
+(un)subscribes, a resuming CONNECT of the same client and a DISCONNECT gives the
+same outputs with and without the stored wills, while a `close` of connection 1
+does not (so the exclusion is needed). -/
+example :
+    let evs : List Ev := [.packet 2 (.publish { qos := 1, topic := Ex.tW, pktid := 9, payload := [3] }),
+      .srvPub { qos := 0, topic := Ex.tW, payload := [4] }, .packet 1 (.unsubscribe 5 [Ex.tW]),
+      .first 4 (.connect (Ex.conn Ex.idA false)) true, .packet 1 .disconnect, .packet 4 .pingreq]
+    (run (eraseWills Ex.base2) evs).2 = (run Ex.base2 evs).2 ∧
+    (run Ex.base2 evs).2.length = 6 ∧ (run Ex.base2 evs).2.head? = some
+      [.send 2 (.puback 9), .send 1 (.publish { qos := 1, topic := Ex.tW, pktid := 9, payload := [3] }),
+       .send 2 (.publish { qos := 1, topic := Ex.tW, pktid := 9, payload := [3] }),
+       .call 1000 { qos := 0, topic := Ex.tW, pktid := 9, payload := [3] }] ∧
+    (stop (eraseWills Ex.base2) 1).2 ≠ (stop Ex.base2 1).2 := by decide
+
+/-! ### 5. over any history between the CONNECT and the end -/
+
+/-- One event keeps the will message and the will flag of session object `r`
+unless it is entitled to change them (`affectsWill`: a CONNECT that resumes `r`,
+or the DISCONNECT / end of a connection served by `r`). -/
+theorem C09_will_kept_step (b : B) (hi : Inv b) (e : Ev) (r : Nat) (s : Sess)
+    (hs : b.getSess r = some s) (h : ¬ affectsWill b r e) :
+    ∃ s', (step b e).1.getSess r = some s' ∧ s'.will = s.will ∧ s'.willFlag = s.willFlag :=
+  step_will_kept hi e r s hs h
+
+/-- what `affectsWill` and `endsConn` say -/
+theorem C09_affectsWill_iff (b : B) (r : Nat) (e : Ev) :
+    (affectsWill b r e ↔
+      (∃ c, (e = .close c ∨ e = .packet c .disconnect) ∧ (b.getConn c).map (·.sess) = some r) ∨
+      (∃ c req a, e = .first c (.connect req) a ∧ accepts (.connect req) a = true ∧
+        (resumed b c req).map (·.ref) = some r)) ∧
+    (∀ c, endsConn c e ↔ e = .close c ∨ e = .packet c .disconnect ∨ ∃ f a, e = .first c f a) := by
+  constructor
+  · cases e with
+    | close c => simp [affectsWill, sessRefOf]
+    | packet c p => cases p <;> simp [affectsWill, sessRefOf]
+    | first c f a =>
+      cases f with
+      | connect req =>
+        simp only [affectsWill]
+        constructor
+        · intro h; exact .inr ⟨c, req, a, rfl, h.1, h.2⟩
+        · rintro (⟨c', (h | h), _⟩ | ⟨c', req', a', h, h1, h2⟩)
+          · cases h
+          · cases h
+          · cases h; exact ⟨h1, h2⟩
+      | other t => simp [affectsWill]
+      | garbage => simp [affectsWill]
+    | srvPub p => simp [affectsWill]
+    | srvSub cb f q => simp [affectsWill]
+    | srvUnsub cb f => simp [affectsWill]
+  · intro c
+    cases e with
+    | close c' => simp [endsConn, eq_comm]
+    | packet c' p => cases p <;> simp [endsConn, eq_comm]
+    | first c' f a => simp [endsConn, eq_comm]
+    | srvPub p => simp [endsConn]
+    | srvSub cb f q => simp [endsConn]
+    | srvUnsub cb f => simp [endsConn]
+
+/-- The property over histories.  Connection `c` is accepted with a CONNECT
+carrying the will `w` (fresh or resumed session); then any events happen —
+traffic of `c` and of every other client, the in-process API, other connections
+coming and going — none of which ends `c`, reuses its number, or belongs to a
+connection sharing `c`'s session object (`quiet`; two live connections under one
+client identifier are outside the property).  When `c` then ends without
+DISCONNECT, the output is the close followed by exactly the publish-path
+outputs for `w` as given in `c`'s own CONNECT. -/
+theorem C09_will_of_own_connect (b0 : B) (hi : Inv b0) (c : Nat) (req : Connect) (authOk : Bool) (w : Will)
+    (hacc : ∃ sp, Out.send c (.connack sp 0) ∈ (first b0 c (.connect req) authOk).2)
+    (hw : req.will = some w) (hv : validTopic w.topic = true)
+    (cn : Conn) (hcn : (first b0 c (.connect req) authOk).1.getConn c = some cn)
+    (evs : List Ev) (hq : quiet cn.sess c (first b0 c (.connect req) authOk).1 evs) :
+    ∃ s, (stop (run (first b0 c (.connect req) authOk).1 evs).1 c).2 =
+      .closed c :: (onPublish (stopBase (run (first b0 c (.connect req) authOk).1 evs).1 c s)
+        ⟨{ qos := w.qos, retain := w.retain, topic := w.topic, payload := w.payload }, true⟩).2.2.1 := by
+  obtain ⟨cn', s, hc, ha, hs, hf, hwl⟩ := C09_will_is_current_connect b0 c req authOk hacc
+  rw [hcn] at hc; cases hc
+  have hi1 : Inv (first b0 c (.connect req) authOk).1 := inv_first hi c _ authOk
+  obtain ⟨hc2, s2, hs2, hw2⟩ := run_will_kept evs hi1 cn.sess c cn s hcn hs hq
+  refine ⟨s2, ?_⟩
+  rw [initWill_some req w hw hv] at hwl
+  rw [hw] at hf
+  exact stop_out_will _ c cn s2 _ hc2 ha hs2 (hw2.2.trans hf) (hw2.1.trans hwl)
+
+/-- and after a DISCONNECT at the end of such a history: nothing -/
+theorem C09_disconnect_after_history (b : B) (hi : Inv b) (evs : List Ev) (c : Nat)
+    (h : (run b evs).1.alive c = true) :
+    (run (run b evs).1 [.packet c .disconnect, .close c]).2 = [[.closed c], []] := by
+  obtain ⟨cn, s, hc, ha, hs⟩ := (inv_run evs hi).live h
+  obtain ⟨h1, _, h3, _⟩ := C09_disconnect_no_will _ c cn s hc ha hs
+  simp only [run, step, h1, h3]
+
+/-- non-vacuity: "A" returns as connection 3 (resumed, new will on "x"); a
+client "C" connects as 4 and subscribes to "x", 2 publishes, 2 leaves; then 3
+drops: its own will is published (to 4). -/
+example :
+    let req := Ex.conn Ex.idA false (some ⟨[120], [5], 1, false⟩)
+    let b0 := (run Ex.base2 [.close 1]).1
+    let evs : List Ev := [.first 4 (.connect (Ex.conn [67] true (some ⟨Ex.tW, [6], 0, false⟩))) true,
+      .packet 4 (.subscribe 1 [([120], 1)]), .packet 2 (.publish { qos := 0, topic := [120], payload := [8] }),
+      .packet 2 .disconnect]
+    (first b0 3 (.connect req) true).1.getConn 3 = some ⟨3, 1, true⟩ ∧
+    quiet 1 3 (first b0 3 (.connect req) true).1 evs ∧
+    (stop (run (first b0 3 (.connect req) true).1 evs).1 3).2 =
+      [.closed 3, .send 4 (.publish { qos := 1, topic := [120], pktid := 3, payload := [5] })] := by
+  refine ⟨by rfl, ?_, by decide⟩
+  simp only [quiet, affectsWill, endsConn, sessRefOf, not_false_eq_true, true_and, and_true]
+  decide
+
 end Mqtt.Properties.C09
